@@ -33,9 +33,6 @@ import (
 func (n *norm) sroa() bool {
 	changed := false
 	for _, f := range n.files {
-		if isGenerated(f) {
-			continue
-		}
 		for _, d := range f.Decls {
 			fd, ok := d.(*ast.FuncDecl)
 			if !ok || fd.Body == nil {
@@ -507,4 +504,288 @@ func (n *norm) typeExpr(t types.Type, file *ast.File) ast.Expr {
 		}
 	}
 	return nil
+}
+
+// Parameter objects. A refactoring that replaces several parameters of a function by one small
+// struct ("introduce parameter object") is undone here: an unexported function with a by-value
+// struct parameter that its body only uses field by field, and that is only ever called
+// directly with a local variable or a composite literal as that argument, gets one parameter
+// per field again; the call sites pass the fields. Afterwards the caller's struct variable is
+// used field by field only, and the pass above splits it.
+func (n *norm) sroaParams() bool {
+	type target struct {
+		fd    *ast.FuncDecl
+		file  *ast.File
+		fn    *types.Func
+		field *ast.Field // the parameter field (single name)
+		index int        // parameter index in the signature
+		st    *types.Struct
+		T     types.Type
+		names []string
+	}
+	// interface method names of the package: methods with such names are left alone
+	ifaceMethods := map[string]bool{}
+	for _, name := range n.pkg.Scope().Names() {
+		if tn, ok := n.pkg.Scope().Lookup(name).(*types.TypeName); ok {
+			if it, ok := tn.Type().Underlying().(*types.Interface); ok {
+				for i := 0; i < it.NumMethods(); i++ {
+					ifaceMethods[it.Method(i).Name()] = true
+				}
+			}
+		}
+	}
+	var targets []*target
+	for _, f := range n.files {
+		for _, d := range f.Decls {
+			fd, ok := d.(*ast.FuncDecl)
+			if !ok || fd.Body == nil || fd.Type.Params == nil || ast.IsExported(fd.Name.Name) || fd.Type.TypeParams != nil {
+				continue
+			}
+			fn, ok := n.info.Defs[fd.Name].(*types.Func)
+			if !ok {
+				continue
+			}
+			if fd.Recv != nil && ifaceMethods[fd.Name.Name] {
+				continue
+			}
+			idx := 0
+			for _, pf := range fd.Type.Params.List {
+				if len(pf.Names) != 1 {
+					idx += len(pf.Names)
+					if len(pf.Names) == 0 {
+						idx++
+					}
+					continue
+				}
+				pv, ok := n.info.Defs[pf.Names[0]].(*types.Var)
+				if !ok || pf.Names[0].Name == "_" {
+					idx++
+					continue
+				}
+				named, isNamed := pv.Type().(*types.Named)
+				st, isSt := pv.Type().Underlying().(*types.Struct)
+				if !isNamed || !isSt || named.Obj().Pkg() != n.pkg || st.NumFields() == 0 || st.NumFields() > 8 {
+					idx++
+					continue
+				}
+				good := true
+				for i := 0; i < st.NumFields(); i++ {
+					if st.Field(i).Embedded() || st.Field(i).Name() == "_" || n.typeExpr(st.Field(i).Type(), f) == nil {
+						good = false
+					}
+				}
+				// body: only p.f
+				inSel := map[*ast.Ident]bool{}
+				ast.Inspect(fd.Body, func(x ast.Node) bool {
+					if s, ok := x.(*ast.SelectorExpr); ok {
+						if id, ok := ast.Unparen(s.X).(*ast.Ident); ok && n.info.Uses[id] == types.Object(pv) {
+							if sel := n.info.Selections[s]; sel != nil && sel.Kind() == types.FieldVal && len(sel.Index()) == 1 {
+								inSel[id] = true
+							}
+						}
+					}
+					return true
+				})
+				ast.Inspect(fd.Body, func(x ast.Node) bool {
+					if id, ok := x.(*ast.Ident); ok && n.info.Uses[id] == types.Object(pv) && !inSel[id] {
+						good = false
+					}
+					return true
+				})
+				if good {
+					t := &target{fd: fd, file: f, fn: fn, field: pf, index: idx, st: st, T: pv.Type()}
+					local := n.localNames(fd)
+					for i := 0; i < st.NumFields(); i++ {
+						nm := pf.Names[0].Name + "_" + st.Field(i).Name()
+						for local[nm] {
+							nm += "_"
+						}
+						local[nm] = true
+						t.names = append(t.names, nm)
+					}
+					targets = append(targets, t)
+				}
+				idx++
+			}
+		}
+	}
+	if len(targets) == 0 {
+		return false
+	}
+	// one parameter per function at a time (indices shift otherwise)
+	seenFn := map[*types.Func]bool{}
+	var uniq []*target
+	for _, t := range targets {
+		if !seenFn[t.fn] {
+			seenFn[t.fn] = true
+			uniq = append(uniq, t)
+		}
+	}
+	targets = uniq
+	byFn := map[*types.Func]*target{}
+	for _, t := range targets {
+		byFn[t.fn] = t
+	}
+	// call sites; any other reference disqualifies
+	type site struct {
+		call *ast.CallExpr
+		t    *target
+		file *ast.File
+	}
+	var sites []*site
+	funPos := map[*ast.Ident]bool{}
+	bad := map[*target]bool{}
+	for _, f := range n.files {
+		file := f
+		ast.Inspect(f, func(x ast.Node) bool {
+			call, ok := x.(*ast.CallExpr)
+			if !ok {
+				return true
+			}
+			callee := n.calleeOf(call)
+			t := byFn[callee]
+			if t == nil {
+				return true
+			}
+			switch fun := ast.Unparen(call.Fun).(type) {
+			case *ast.Ident:
+				funPos[fun] = true
+			case *ast.SelectorExpr:
+				funPos[fun.Sel] = true
+			}
+			if call.Ellipsis.IsValid() || t.index >= len(call.Args) || len(call.Args) != t.fn.Type().(*types.Signature).Params().Len() {
+				bad[t] = true
+				return true
+			}
+			arg := ast.Unparen(call.Args[t.index])
+			switch a := arg.(type) {
+			case *ast.Ident:
+				if v, isVar := n.info.Uses[a].(*types.Var); !isVar || v.IsField() || v.Parent() == n.pkg.Scope() || !types.Identical(v.Type(), t.T) {
+					bad[t] = true
+				}
+			case *ast.CompositeLit:
+				tv, ok := n.info.Types[a]
+				if !ok || !types.Identical(tv.Type, t.T) {
+					bad[t] = true
+					break
+				}
+				// operands must appear in field order (evaluation order is kept) or be trivial
+				last := -1
+				for i, el := range a.Elts {
+					fi := i
+					val := el
+					if kv, isKV := el.(*ast.KeyValueExpr); isKV {
+						fi = -1
+						if k, ok := kv.Key.(*ast.Ident); ok {
+							for j := 0; j < t.st.NumFields(); j++ {
+								if t.st.Field(j).Name() == k.Name {
+									fi = j
+								}
+							}
+						}
+						val = kv.Value
+					}
+					if fi < 0 || (fi < last && !n.trivial(val)) {
+						bad[t] = true
+					}
+					if fi > last {
+						last = fi
+					}
+				}
+			default:
+				bad[t] = true
+			}
+			sites = append(sites, &site{call, t, file})
+			return true
+		})
+	}
+	for id, o := range n.info.Uses {
+		if fn, ok := o.(*types.Func); ok {
+			if t := byFn[fn]; t != nil && !funPos[id] {
+				bad[t] = true
+			}
+		}
+	}
+	changed := false
+	for _, s := range sites {
+		t := s.t
+		if bad[t] {
+			continue
+		}
+		arg := ast.Unparen(s.call.Args[t.index])
+		var repl []ast.Expr
+		switch a := arg.(type) {
+		case *ast.Ident:
+			for i := 0; i < t.st.NumFields(); i++ {
+				repl = append(repl, &ast.SelectorExpr{X: &ast.Ident{NamePos: a.NamePos, Name: a.Name}, Sel: ast.NewIdent(t.st.Field(i).Name())})
+			}
+		case *ast.CompositeLit:
+			repl = make([]ast.Expr, t.st.NumFields())
+			for i, el := range a.Elts {
+				if kv, isKV := el.(*ast.KeyValueExpr); isKV {
+					for j := 0; j < t.st.NumFields(); j++ {
+						if t.st.Field(j).Name() == kv.Key.(*ast.Ident).Name {
+							repl[j] = kv.Value
+						}
+					}
+				} else {
+					repl[i] = el
+				}
+			}
+			for j := range repl {
+				if repl[j] == nil {
+					te := n.typeExpr(t.st.Field(j).Type(), s.file)
+					if te == nil {
+						bad[t] = true
+						break
+					}
+					repl[j] = &ast.StarExpr{X: &ast.CallExpr{Fun: ast.NewIdent("new"), Args: []ast.Expr{te}}}
+				}
+			}
+		}
+		if bad[t] {
+			continue
+		}
+		var args []ast.Expr
+		args = append(args, s.call.Args[:t.index]...)
+		args = append(args, repl...)
+		args = append(args, s.call.Args[t.index+1:]...)
+		s.call.Args = args
+		changed = true
+	}
+	for _, t := range targets {
+		if bad[t] {
+			continue
+		}
+		// signature
+		var fields []*ast.Field
+		for _, pf := range t.fd.Type.Params.List {
+			if pf != t.field {
+				fields = append(fields, pf)
+				continue
+			}
+			for i, nm := range t.names {
+				fields = append(fields, &ast.Field{Names: []*ast.Ident{ast.NewIdent(nm)}, Type: n.typeExpr(t.st.Field(i).Type(), t.file)})
+			}
+		}
+		t.fd.Type.Params.List = fields
+		// body
+		pname := t.field.Names[0].Name
+		pobj := n.info.Defs[t.field.Names[0]]
+		astutil.Apply(t.fd.Body, nil, func(cur *astutil.Cursor) bool {
+			if s, ok := cur.Node().(*ast.SelectorExpr); ok {
+				if id, ok := ast.Unparen(s.X).(*ast.Ident); ok && id.Name == pname && n.info.Uses[id] == pobj {
+					for i := 0; i < t.st.NumFields(); i++ {
+						if t.st.Field(i).Name() == s.Sel.Name {
+							cur.Replace(&ast.Ident{NamePos: s.Sel.NamePos, Name: t.names[i]})
+						}
+					}
+				}
+			}
+			return true
+		})
+		n.rep.Split = append(n.rep.Split, fmt.Sprintf("%s(parameter %s)", Key(t.fd), pname))
+		changed = true
+	}
+	return changed
 }
